@@ -1,6 +1,7 @@
 package main
 
 import (
+	"sort"
 	"fmt"
 	"go/constant"
 	"go/types"
@@ -27,6 +28,11 @@ func checkC20(c *Ctx) {
 	ruleEveryHandlerOnce(c, norm, ddt)
 	rulePermutationInsensitive(c)
 	ruleTypePrecedence(c, ddt)
+	hroots := []*ssa.Function{norm, ddt, uuid}
+	if ht := c.P.Func(pkgInput, "DeviceInfo", "HandlerType"); ht != nil {
+		hroots = append(hroots, ht)
+	}
+	ruleNoHiddenState(c, hroots)
 	c.MinCount("R20.1", 2)
 	c.MinCount("R20.2", 3)
 	c.MinCount("R20.4", 5)
@@ -445,4 +451,117 @@ func ruleTypePrecedence(c *Ctx, ddt *ssa.Function) {
 		}
 	}
 	c.Check(seenJoy && seenKbd && seenOther, "R20.5", "input.DetermineDeviceType/three-outcomes", pos, "joystick, keyboard and not-playable outcomes all present", "an outcome is missing")
+}
+
+// ruleNoHiddenState: R20.6 grouping and classification are functions of the handlers handed in: nothing they reach
+// reads package-level state that the program also modifies (a cache keyed by something the kernel reuses, a counter).
+func ruleNoHiddenState(c *Ctx, roots []*ssa.Function) {
+	// reachable repository functions (static calls and closures)
+	reach := map[*ssa.Function]bool{}
+	var visit func(f *ssa.Function)
+	visit = func(f *ssa.Function) {
+		if f == nil || reach[f] || len(f.Blocks) == 0 || !c.P.OwnedFunc(f) {
+			return
+		}
+		reach[f] = true
+		for _, b := range f.Blocks {
+			for _, in := range b.Instrs {
+				if ci, ok := in.(ssa.CallInstruction); ok {
+					visit(ci.Common().StaticCallee())
+					if ci.Common().IsInvoke() {
+						// String()/Error() style interface calls on repository types: resolved by name over the package
+						continue
+					}
+				}
+				if mc, ok := in.(*ssa.MakeClosure); ok {
+					visit(mc.Fn.(*ssa.Function))
+				}
+			}
+		}
+	}
+	for _, r := range roots {
+		visit(r)
+	}
+	// which globals are modified anywhere (outside package initialisers): stored to, map-updated, or handed by address
+	// to a call (methods with pointer receivers such as sync.Map / sync.Mutex / atomic types)
+	rootGlobal := func(v ssa.Value) *ssa.Global {
+		for i := 0; i < 8 && v != nil; i++ {
+			switch x := v.(type) {
+			case *ssa.Global:
+				return x
+			case *ssa.FieldAddr:
+				v = x.X
+			case *ssa.IndexAddr:
+				v = x.X
+			case *ssa.UnOp:
+				v = x.X
+			case *ssa.Lookup:
+				v = x.X
+			default:
+				return nil
+			}
+		}
+		return nil
+	}
+	modified := map[*ssa.Global]string{}
+	for _, f := range c.P.Funcs {
+		if f.Name() == "init" || strings.HasPrefix(f.Name(), "init#") {
+			continue
+		}
+		for _, b := range f.Blocks {
+			for _, in := range b.Instrs {
+				switch x := in.(type) {
+				case *ssa.Store:
+					if g := rootGlobal(x.Addr); g != nil {
+						modified[g] = "assigned in " + shortFn(f)
+					}
+				case *ssa.MapUpdate:
+					if g := rootGlobal(x.Map); g != nil {
+						modified[g] = "map updated in " + shortFn(f)
+					}
+				case ssa.CallInstruction:
+					for _, a := range x.Common().Args {
+						if _, isPtr := a.Type().Underlying().(*types.Pointer); !isPtr {
+							continue
+						}
+						if g := rootGlobal(a); g != nil {
+							if callee := x.Common().StaticCallee(); callee != nil && inertPkgs[pkgPathOf(callee)] {
+								continue
+							}
+							modified[g] = "passed by address to a call in " + shortFn(f)
+						}
+					}
+				}
+			}
+		}
+	}
+	n := 0
+	var fns []*ssa.Function
+	for f := range reach {
+		fns = append(fns, f)
+	}
+	sort.Slice(fns, func(i, j int) bool { return fns[i].String() < fns[j].String() })
+	for _, f := range fns {
+		for _, b := range f.Blocks {
+			for _, in := range b.Instrs {
+				for _, op := range in.Operands(nil) {
+					if op == nil || *op == nil {
+						continue
+					}
+					g, ok := (*op).(*ssa.Global)
+					if !ok || g.Pkg == nil || !c.P.owned(g.Pkg.Pkg.Path()) {
+						continue
+					}
+					n++
+					key := "state(" + g.Pkg.Pkg.Name() + "." + g.Name() + ")@" + shortFn(f)
+					if why, bad := modified[g]; bad {
+						c.Bad("R20.6", key, c.P.Pos(in.Pos()), fmt.Sprintf("device grouping/classification reads package-level state that is modified at run time (%s): the result depends on what was discovered earlier, not only on the handlers handed in", why))
+					} else {
+						c.OK("R20.6", key, c.P.Pos(in.Pos()), "package-level value that is never modified after initialisation")
+					}
+				}
+			}
+		}
+	}
+	c.OK("R20.6", "grouping+classification/no-hidden-state", "-", fmt.Sprintf("%d function(s) reachable from Normalize / DetermineDeviceType / PhysicalUUID, %d reference(s) to package-level values, none to modified state", len(fns), n))
 }
